@@ -4,9 +4,14 @@
 package main
 
 import (
+	"bytes"
+	"context"
 	"fmt"
 	"os"
+	"os/exec"
 	"path/filepath"
+	"runtime/debug"
+	"strconv"
 	"strings"
 	"syscall"
 	"time"
@@ -258,7 +263,103 @@ func runCase(h *hx.H, o caseOpts, src string) sexp.Node {
 
 var fatalAfter bool
 
+// ---------------------------------------------------------------------------------------------
+// stack probe: "time AND STACK ... flat documents of any width ... error, not crash".  A goroutine
+// stack overflow is a fatal error of the process, not a panic, so the document is validated in a
+// child process (this binary, re-executed with C12_STACK_CHILD=family:n) whose stack limit is
+// lowered to 32 MB; flat documents must pass there whatever their width.
+// ---------------------------------------------------------------------------------------------
+
+const stackLimit = 32 << 20
+
+// a name, a run of n ignored tokens, a name
+func ignoredRun(unit string) func(n int) string {
+	return func(n int) string { return "{i" + rep(unit, n) + "j}" }
+}
+
+type stackFamily struct {
+	name string
+	gen  func(n int) string
+	n    int
+}
+
+func stackFamilies(thorough bool) []stackFamily {
+	m := 1
+	if thorough {
+		m = 2
+	}
+	out := []stackFamily{
+		{"ignored-run-spaces", ignoredRun(" "), 2000000 * m},
+		{"ignored-run-commas", ignoredRun(","), 2000000 * m},
+		{"ignored-run-tabs", ignoredRun("\t"), 1000000 * m},
+		{"ignored-run-blank-lines", ignoredRun("\n"), 1000000 * m},
+		{"ignored-run-crlf", ignoredRun("\r\n"), 1000000 * m},
+		{"ignored-run-comment-lines", ignoredRun("#c\n"), 500000 * m},
+		{"ignored-run-mixed", ignoredRun(" ,\n\t#\n"), 400000 * m},
+	}
+	for _, f := range families() {
+		if f.kind == "wide" {
+			sizes := f.quick
+			if thorough {
+				sizes = f.thorough
+			}
+			out = append(out, stackFamily{f.name, f.gen, sizes[len(sizes)-1]})
+		}
+	}
+	return out
+}
+
+func stackChild(spec string) {
+	debug.SetMaxStack(stackLimit)
+	i := strings.LastIndex(spec, ":")
+	n, _ := strconv.Atoi(spec[i+1:])
+	for _, f := range stackFamilies(true) {
+		if f.name == spec[:i] {
+			src := f.gen(n)
+			_, errs := graphql.ParseAndValidate(src, buildSchema(), schema.FeatureSet{})
+			fmt.Printf("child-done %d %d\n", len(src), len(errs))
+			os.Exit(0)
+		}
+	}
+	fmt.Println("child-unknown-family")
+	os.Exit(3)
+}
+
+func probeStack(f stackFamily) sexp.Node {
+	result, detail := "died", ""
+	exe, err := os.Executable()
+	if err == nil {
+		ctx, cancel := context.WithTimeout(context.Background(), 120*time.Second)
+		defer cancel()
+		cmd := exec.CommandContext(ctx, exe)
+		cmd.Env = append(os.Environ(), "C12_STACK_CHILD="+f.name+":"+strconv.Itoa(f.n))
+		var buf bytes.Buffer
+		cmd.Stdout, cmd.Stderr = &buf, &buf
+		err = cmd.Run()
+		out := buf.String()
+		switch {
+		case err == nil && strings.Contains(out, "child-done"):
+			result = "ok"
+		case strings.Contains(out, "stack overflow") || strings.Contains(out, "stack exceeds"):
+			result = "overflow"
+		case ctx.Err() != nil:
+			result = "timeout"
+		}
+		if result != "ok" {
+			if len(out) > 200 {
+				out = out[:200]
+			}
+			detail = out
+		}
+	}
+	return sexp.T("case", sexp.T("family", sexp.Sym("stack-"+f.name)), sexp.T("n", sexp.Int(f.n)),
+		sexp.T("stackprobe", sexp.T("result", sexp.Sym(result)), sexp.T("limit", sexp.Int(stackLimit)), sexp.T("detail", sexp.Str(detail))))
+}
+
 func main() {
+	if spec := os.Getenv("C12_STACK_CHILD"); spec != "" {
+		stackChild(spec)
+	}
 	// Go prints a warning at exit when a -cover binary runs without GOCOVERDIR; give it one
 	if os.Getenv("GOCOVERDIR") == "" {
 		dir := filepath.Join(os.Getenv("VERIF_RUNDIR"), "gocover")
@@ -354,6 +455,15 @@ func main() {
 			for _, n := range sizes {
 				f, n := f, n
 				emit(caseOpts{family: f.name, n: n, cost: true, blown: &blown}, func(*rng.R) string { return f.gen(n) })
+			}
+		}
+
+		// 3b. stack probes: ignored-token runs and every breadth family at its largest size, in a child
+		// process with a 32 MB stack limit
+		for _, f := range stackFamilies(h.Thorough()) {
+			f := f
+			if !fatalAfter {
+				h.Case(func(*rng.R) sexp.Node { return probeStack(f) })
 			}
 		}
 
